@@ -17,11 +17,10 @@ const (
 
 // The FixedPoint opcode is both a basic instruction and a template for other instructions.
 type FixedPoint struct {
-	fpName   string
-	s        int
-	f        int
-	opType   uint8
-	pipeline *uint8
+	fpName string
+	s      int
+	f      int
+	opType uint8
 }
 
 func (op FixedPoint) Op_get_name() string {
@@ -220,9 +219,9 @@ func (op FixedPoint) Simulate(vm *VM, instr string) error {
 	regDest := get_id(instr[:regBits])
 	regSrc := get_id(instr[regBits : regBits*2])
 
-	switch *op.pipeline {
+	switch vm.pipelinePhase(op.Op_get_name()) {
 	case FPPUT:
-		*op.pipeline = LQGET
+		vm.setPipelinePhase(op.Op_get_name(), LQGET)
 	case LQGET:
 		var dest int64
 		var src int64
@@ -262,7 +261,7 @@ func (op FixedPoint) Simulate(vm *VM, instr string) error {
 			return errors.New("invalid register size, must be <= 64")
 		}
 		vm.Pc = vm.Pc + 1
-		*op.pipeline = LQPUT
+		vm.setPipelinePhase(op.Op_get_name(), LQPUT)
 	}
 	return nil
 }
